@@ -25,6 +25,8 @@ Builder side (proofs in Lemmas/C16Basic, C16Inv, C16Push, C16New, C16Run):
   unchecked have one entry per field / variant; decimal precisions are the accepted ones), `push` does not unwind;
   `NPInv` is established by `build_builder` and preserved by every successful push of every value;
 * `newDT`, `finish`, `extend`, `serializeWith`, `runRows`, `toMarrow` never unwind, for every field list and all rows.
+* the union row counters: `union_rows_capacity_is_error` / `union_row_ok_below_capacity` /
+  `serializeVariantPinned_overflow_panics` / `pushDefaultK_union_capacity_is_error` (repo fix fe68100).
 The external conversions enter through `ExtNP ext` (they do not unwind); `codecExt_np` discharges it — without any
 hypothesis — for the C14 / C15 codec models, the timestamp string parser included (`timestampOfString_no_panic`).
 
@@ -132,6 +134,87 @@ example : (push {} (.map "$.a" ⟨"entries", false, ⟨"key", false, []⟩, ⟨"
 theorem push_without_inv_panics :
     (push {} (.union "$" (.cons (.null "$.a" 0) ⟨"a", true, []⟩ .nil) [] [] []) (.unitVariant "E" 0 "a")).isPanic = true := by
   decide
+
+/-! ### the per-variant row counters of a union (`current_offset: Vec<i32>`, repo fix fe68100) -/
+
+/-- **Beyond `i32::MAX` rows of one variant a union row is an ERROR**: for every state in which the counter of the
+variant cannot be incremented inside `i32`, `serialize_variant` returns an error value — not a panic (the pinned `+= 1`
+with overflow checks), not an accepted row with a wrapped offset. -/
+theorem union_rows_capacity_is_error (fs : BL) (types offs cur : List Int) (idx : Nat) (c : B) (m : FieldMeta) (co : Int)
+    (hget : fs.get? idx = some (c, m)) (hco : cur[idx]? = some co) (hcap : co + 1 > 2147483647) :
+    (serializeVariant fs types offs cur idx).isErr = true := by
+  simp only [serializeVariant, hget, hco, if_pos hcap]
+  rfl
+
+/-- below the capacity (and with a type id that fits `i8`) the row is accepted: the counter is the row's child offset -/
+theorem union_row_ok_below_capacity (fs : BL) (types offs cur : List Int) (idx : Nat) (c : B) (m : FieldMeta) (co : Int)
+    (hget : fs.get? idx = some (c, m)) (hco : cur[idx]? = some co) (hcap : co + 1 ≤ 2147483647) (hidx : idx ≤ 127) :
+    serializeVariant fs types offs cur idx = .ok (c, types ++ [(idx : Int)], offs ++ [co], cur.set idx (co + 1)) := by
+  have h1 : ¬ (co + 1 > 2147483647) := by omega
+  have h2 : ¬ (idx > 127) := by omega
+  simp only [serializeVariant, hget, hco, if_neg h1, if_neg h2]
+
+/-- the pinned code (unchecked `current_offset[variant_index] += 1` on an `i32`) unwinds on the 2^31-th row of a
+variant; the repaired code returns an error on the same state -/
+theorem serializeVariantPinned_overflow_panics :
+    serializeVariantPinned (.cons (.null "$.a" 2147483647) ⟨"a", true, []⟩ .nil) [] [] [2147483647] 0
+      = panic "attempt to add with overflow" ∧
+    (serializeVariant (.cons (.null "$.a" 2147483647) ⟨"a", true, []⟩ .nil) [] [] [2147483647] 0).isErr = true :=
+  ⟨by decide, by decide⟩
+
+/-- non-vacuity: both boundary rows of variant 1 of `Union<Null, Null>` (the overflow suite's case `union_rows`) -/
+example : (serializeVariant (.cons (.null "$.a.A" 0) ⟨"A", true, []⟩ (.cons (.null "$.a.B" 0) ⟨"B", true, []⟩ .nil)) [] []
+      [0, 2147483646] 1).isOk = true ∧
+    (serializeVariant (.cons (.null "$.a.A" 0) ⟨"A", true, []⟩ (.cons (.null "$.a.B" 0) ⟨"B", true, []⟩ .nil)) [] []
+      [0, 2147483647] 1).isErr = true :=
+  ⟨by decide, by decide⟩
+
+/-- the hypotheses of `union_rows_capacity_is_error` / `union_row_ok_below_capacity` are met by these states -/
+example : (serializeVariant (.cons (.null "$.a.A" 0) ⟨"A", true, []⟩ (.cons (.null "$.a.B" 0) ⟨"B", true, []⟩ .nil)) [] []
+      [0, 2147483647] 1).isErr = true :=
+  union_rows_capacity_is_error _ _ _ _ 1 (.null "$.a.B" 0) ⟨"B", true, []⟩ 2147483647 rfl rfl (by decide)
+example : serializeVariant (.cons (.null "$.a.A" 0) ⟨"A", true, []⟩ (.cons (.null "$.a.B" 0) ⟨"B", true, []⟩ .nil)) [] []
+      [0, 2147483646] 1 = .ok (.null "$.a.B" 0, [1], [2147483646], [0, 2147483647]) :=
+  union_row_ok_below_capacity _ _ _ _ 1 (.null "$.a.B" 0) ⟨"B", true, []⟩ 2147483646 rfl rfl (by decide) (by decide)
+
+theorem ctx_isOk {α} (ann : List (String × String)) (r : R α) : (ctx ann r).isOk = r.isOk := by
+  unfold ctx
+  split
+  · split <;> simp [R.isOk]
+  · rfl
+
+/-- **the defaults route** (`UnionBuilder::serialize_default` = one row of the first real variant per call; a
+`None` of an enclosing nullable struct sends it): `k ≠ 0` defaults that do not fit into the `i32` counter of that
+variant are an error in EVERY state — never a panic, never accepted. -/
+theorem pushDefaultK_union_capacity_is_error (p : String) (fs : BL) (types offs cur : List Int) (k : Nat) (hk : k ≠ 0)
+    (hcap : cur.getD (firstReal fs) 0 + (k : Int) > 2147483647) :
+    (pushDefaultK (.union p fs types offs cur) k).isPanic = false ∧
+    (pushDefaultK (.union p fs types offs cur) k).isOk = false := by
+  refine ⟨Lemmas.C16.pushDefaultK_no_panic _ k, ?_⟩
+  unfold pushDefaultK
+  rw [ctx_isOk]
+  cases fs with
+  | nil => simp only [if_neg hk]; rfl
+  | cons c m rest =>
+    simp only []
+    split
+    · rfl
+    split
+    · rfl
+    · cases h : pushDefaultKAt (.cons c m rest) (firstReal (.cons c m rest)) k with
+      | error e => rfl
+      | ok fs' =>
+        simp only [bind, Except.bind]
+        rw [if_pos ⟨hk, hcap⟩]
+        rfl
+
+/-- non-vacuity: `Union<Null>` with `2^31 - 2` rows takes one default and refuses two (and one at `2^31 - 1`) -/
+example : (pushDefaultK (.union "$.u" (.cons (.null "$.u.A" 2147483646) ⟨"A", true, []⟩ .nil) [] [] [2147483646]) 1).isOk = true ∧
+    (pushDefaultK (.union "$.u" (.cons (.null "$.u.A" 2147483646) ⟨"A", true, []⟩ .nil) [] [] [2147483646]) 2).isErr = true ∧
+    (pushDefaultK (.union "$.u" (.cons (.null "$.u.A" 2147483647) ⟨"A", true, []⟩ .nil) [] [] [2147483647]) 1).isErr = true :=
+  ⟨by decide, by decide, by decide⟩
+example : (pushDefaultK (.union "$.u" (.cons (.null "$.u.A" 2147483646) ⟨"A", true, []⟩ .nil) [] [] [2147483646]) 2).isOk = false :=
+  (pushDefaultK_union_capacity_is_error _ _ _ _ _ 2 (by decide) (by decide)).2
 
 /-- the default external functions (everything is refused) satisfy `ExtNP` -/
 theorem extDefault_np : ExtNP {} :=
